@@ -20,7 +20,11 @@ import (
 
 // compCtl is the harness' handle on the compressors a wsflate.Writer builds.
 type compCtl struct {
-	kind string // flate | flate-noreset | raw | raw-noreset
+	// kind = base "/" capabilities: base flate (compress/flate) or raw
+	// (pass-through); capabilities "close+reset", "close", "reset", "none" say
+	// which optional methods (io.Closer, wsflate.WriteResetter) the compressor
+	// handed to wsflate.Writer exposes besides Write/Flush.
+	kind string
 	// extra is appended by Flush after the compressor's own output ("bad
 	// compressor": the stream no longer ends in 00 00 ff ff).
 	extra []byte
@@ -67,6 +71,33 @@ func (c *rawComp) Flush() error {
 }
 func (c *rawComp) Reset(w io.Writer) { c.dst = w }
 
+// Close ends the stream the way a deflate compressor does: a final empty block.
+func (c *rawComp) Close() error {
+	_, err := c.dst.Write([]byte{0x01, 0x00, 0x00, 0xff, 0xff})
+	return err
+}
+
+type fullComp interface {
+	wsflate.Compressor
+	io.Closer
+	wsflate.WriteResetter
+}
+
+// closeOnly exposes Write/Flush/Close, resetOnly Write/Flush/Reset.
+type closeOnly struct{ c fullComp }
+
+func (n closeOnly) Write(p []byte) (int, error) { return n.c.Write(p) }
+func (n closeOnly) Flush() error                { return n.c.Flush() }
+func (n closeOnly) Close() error                { return n.c.Close() }
+
+type resetOnly struct{ c fullComp }
+
+func (n resetOnly) Write(p []byte) (int, error) { return n.c.Write(p) }
+func (n resetOnly) Flush() error                { return n.c.Flush() }
+func (n resetOnly) Reset(w io.Writer)           { n.c.Reset(w) }
+
+var compKinds = []string{"flate/close+reset", "flate/close", "flate/reset", "flate/none", "raw/close+reset", "raw/close", "raw/reset", "raw/none"}
+
 // noReset hides every method but the Compressor interface, so that
 // wsflate.Writer.Reset has to re-construct the compressor.
 type noReset struct{ c wsflate.Compressor }
@@ -76,14 +107,19 @@ func (n noReset) Flush() error                { return n.c.Flush() }
 
 func (ctl *compCtl) ctor(w io.Writer) wsflate.Compressor {
 	ctl.built++
-	var c wsflate.Compressor
+	var c fullComp
 	if strings.HasPrefix(ctl.kind, "flate") {
 		fw, _ := flate.NewWriter(w, 6)
 		c = &flateComp{ctl: ctl, fw: fw, dst: w}
 	} else {
 		c = &rawComp{ctl: ctl, dst: w}
 	}
-	if strings.HasSuffix(ctl.kind, "-noreset") {
+	switch ctl.kind[strings.Index(ctl.kind, "/")+1:] {
+	case "close":
+		return closeOnly{c}
+	case "reset":
+		return resetOnly{c}
+	case "none":
 		return noReset{c}
 	}
 	return c
@@ -164,7 +200,7 @@ func runFw(w *wsflate.Writer, ctl *compCtl, ops []fwOp) []fwRes {
 // wsflate.Writer, for compressors with and without their own Reset.
 func TestFlateWriterReset(t *testing.T) {
 	hx.Check(t, 4, func(t *rapid.T) {
-		kind := rapid.SampledFrom([]string{"flate", "flate-noreset", "raw", "raw-noreset"}).Draw(t, "kind")
+		kind := rapid.SampledFrom(compKinds).Draw(t, "kind")
 		raw := strings.HasPrefix(kind, "raw")
 		h1 := drawFwOps(t, "h1", 0, 5, raw, true)
 		h2 := drawFwOps(t, "h2", 0, 4, raw, false)
@@ -188,6 +224,9 @@ func TestFlateWriterReset(t *testing.T) {
 
 		rec2 := tx.NewRec()
 		w.Reset(rec2)
+		if rec2.Len() != 0 || len(rec2.Calls) != 0 {
+			t.Fatalf("Reset(newDest) itself wrote %x to the new destination (a new Writer writes nothing before its first Write)\ncompressor %s, history before: %s", rec2.Bytes(), kind, hx.JSON(h1))
+		}
 
 		ctlT := &compCtl{kind: kind}
 		recT := tx.NewRec()
